@@ -474,7 +474,7 @@ class C34Engine(Engine):
                             fh.write(data[:k])
                     elif f == "flip" and data:
                         k = tape.choose("flip_at", len(data))
-                        if 12 <= k < 16:
+                        if 12 <= k < 16 and len(data) > 64:
                             # bytes 12-15 of a kastore file are `num_items`; with a high bit set there, kastore's
                             # kastore_close() loops over billions of non-existent items after the failed load, i.e.
                             # tskit.load never returns (seen once: VERIF_SEED=13, run 967).  A third-party hang on
